@@ -123,6 +123,16 @@ pub trait Check: Sync + Send {
     fn stub_components(&self) -> Vec<&'static str> {
         Vec::new()
     }
+    /// Extra command-line modes of a check binary (e.g. the child side of a
+    /// fresh-process comparison). Return Some(exit code) if handled.
+    fn custom_command(&self, _args: &[String]) -> Option<i32> {
+        None
+    }
+    /// How many consecutive run indices a worker takes at once. Checks whose
+    /// runs are heavy (statistical experiments) use 1.
+    fn chunk(&self) -> u64 {
+        32
+    }
     /// Real-time watchdog per run (seconds). It only exists to turn a genuine
     /// hang into a report: the bounded work of a run is far below it.
     fn watchdog_secs(&self) -> u64 {
@@ -279,6 +289,9 @@ const FP_RUN_CAP: u64 = 1 << 23;
 pub fn main_for<C: Check>(check: C) -> ! {
     install_quiet_panic_hook();
     let args: Vec<String> = std::env::args().skip(1).collect();
+    if let Some(code) = check.custom_command(&args) {
+        std::process::exit(code);
+    }
     let code = match args.first().map(String::as_str) {
         Some("--replay") => {
             let path = args.get(1).unwrap_or_else(|| {
@@ -435,7 +448,7 @@ fn run_tier<C: Check>(check: &C, tier: Tier) -> i32 {
     let harness_error: Mutex<Option<String>> = Mutex::new(None);
     let abort = AtomicBool::new(false);
     let outs: Mutex<Vec<WorkerOut<C::Scenario>>> = Mutex::new(Vec::new());
-    const CHUNK: u64 = 64;
+    let chunk: u64 = check.chunk().max(1);
     // heartbeat per worker: (run index + 1, start in ms since t0); 0 = idle
     let beats: Vec<(AtomicU64, AtomicU64)> = (0..threads).map(|_| (AtomicU64::new(0), AtomicU64::new(0))).collect();
     let done = AtomicBool::new(false);
@@ -472,11 +485,11 @@ fn run_tier<C: Check>(check: &C, tier: Tier) -> i32 {
                     violations_total: 0,
                 };
                 'outer: loop {
-                    let start = next.fetch_add(CHUNK, Ordering::Relaxed);
+                    let start = next.fetch_add(chunk, Ordering::Relaxed);
                     if start >= total || abort.load(Ordering::Relaxed) {
                         break;
                     }
-                    for i in start..(start + CHUNK).min(total) {
+                    for i in start..(start + chunk).min(total) {
                         beats[wi].1.store(t0.elapsed().as_millis() as u64, Ordering::Relaxed);
                         beats[wi].0.store(i + 1, Ordering::Relaxed);
                         let r = catch_unwind(AssertUnwindSafe(|| {
